@@ -225,6 +225,20 @@ def run(ctx: Ctx) -> None:
         ok_clamp = ok_sum and (bool(clamp) or any("any(" in t for t in texts))
     ctx.ob("C07.SEARCH", V, comp_defs[0][0] if comp_defs else lp, f"mismatch iff some d: {detail}", ok_search, expected="np.rint(disp_right) == np.tile(-1 * disparity_range, ...)", detail="a pixel is a mismatch when round(dR(p+d)) == -d for some d of the interval")
     ctx.ob("C07.SEARCH", V, comp_defs[-1][0] if comp_defs else lp, "comp reduced over the disparity axis and clamped to {0,1}", ok_clamp, detail="several matching disparities must count once: the flag arithmetic multiplies the flags by comp", expected="comp = np.sum(comp, axis=1); comp[comp > 1] = 1")
+    # nothing else may narrow the candidate set between the comparison and the reduction (e.g. `comp &= index != own_correspondent`)
+    if comp_defs:
+        allowed = {id(comp_defs[0][0])} | {id(d[0]) for d in comp_defs[1:] if canon(d[1]) in ("np.sum(comp, axis=1)", "np.any(comp, axis=1)", "comp.any(axis=1)", "comp.sum(axis=1)")} | {id(st) for st in clamp}
+        writes = []
+        for st in walk_no_nested(lp):
+            tg = st.targets[0] if isinstance(st, ast.Assign) else (st.target if isinstance(st, (ast.AugAssign, ast.AnnAssign)) else None)
+            base = tg
+            while isinstance(base, ast.Subscript):
+                base = base.value
+            if isinstance(base, ast.Name) and base.id == "comp" and id(st) not in allowed:
+                if isinstance(st, ast.Assign) and isinstance(tg, ast.Name) and canon(strip_casts(st.value)) == "comp":
+                    continue  # a pure cast
+                writes.append(st)
+        ctx.ob("C07.SEARCH", V, writes[0] if writes else comp_defs[0][0], f"the candidate matrix is written only by the comparison, the reduction and the clamp{': `' + src(writes[0])[:120] + '`' if writes else ''}", not writes, expected="no other store into comp", detail="every d of the interval is a candidate of the mismatch search, the pixel's own rejected correspondent included (with a threshold below 1 its rounded value can still match): masking candidates out turns mismatches into occlusions")
     # index = d + p, bounds 0 <= index < nb_col, read from the other dataset at the same row
     idx_defs = defs.all_defs("index")
     if idx_defs:
@@ -307,6 +321,8 @@ SPEC = PropSpec(
 )
 
 MUTANTS = [
+    {"id": "own-correspondent-excluded", "file": V, "old": "            comp = np.sum(comp, axis=1)\n", "new": "            comp &= index != col_right[inside_right][invalid][:, np.newaxis]\n            comp = np.sum(comp, axis=1)\n"},
+    {"id": "eq-comp-cast", "kind": "equiv", "file": V, "old": "            comp = np.sum(comp, axis=1)\n", "new": "            comp = comp.astype(np.int64)\n            comp = np.sum(comp, axis=1)\n"},
     {"id": "nan-to-inf-result-discarded", "file": V, "old": "            right_disp[np.isnan(right_disp)] = np.inf\n", "new": "            np.nan_to_num(right_disp, nan=np.inf)\n"},
     {"id": "eq-nan-to-inf-by-nan_to_num-assigned", "kind": "equiv", "file": V, "old": "            left_disp[np.isnan(left_disp)] = np.inf\n", "new": "            left_disp = np.nan_to_num(left_disp, nan=np.inf)\n"},
     {"id": "outside-and", "file": V, "old": "outside_right = np.where((col_right < 0) | (col_right >= nb_col))", "new": "outside_right = np.where((col_right < 0) & (col_right >= nb_col))"},
